@@ -409,11 +409,12 @@ contract(RD + "_push_events", props=["C15", "C14"], types={"dt": "DT"},
                         modifies=["content(self._prev_event_dt)", "content(self._event_mux._prefetched_events)", "every(EventSource)"] + POOL_MOD)},
          **RT_RELY)
 # C15: "idle handlers run only when nothing is being handled" -- the precondition is demanded at the call site
-contract(RD + "_on_idle", props=["C15"], trusted=True, may_suspend=True,
-         requires=[("pool_is_idle", "len(self._handlers_task_pool._tasks) == 0")],
-         ensures=[("pool_wf", "tp_wf(self._handlers_task_pool)")],
-         raises={"CancelledError": []}, modifies=POOL_MOD,
-         notes="body not verified: a comprehension over calls of opaque idle handlers passed through gather_no_raise(*...)")
+contract(RD + "_on_idle", props=["C15", "C14"], may_suspend=True, cancellable=True,
+         requires=[("pool_is_idle", "len(self._handlers_task_pool._tasks) == 0"), ("pool_wf", "tp_wf(self._handlers_task_pool)")],
+         ensures=[("pool_wf", "tp_wf(self._handlers_task_pool)"),
+                  # C14 bounded concurrency: idle handlers are started through the task pool, never awaited directly
+                  ("idle_handlers_go_through_the_pool", "implies(len(self._idle_handlers) > 0, gathered_count('push', self._idle_handlers) == 1)")],
+         raises={"CancelledError": []}, modifies=POOL_MOD, **RT_RELY)
 contract(RD + "_dispatch_loop", props=["C15", "C14"],
          requires=[("pool_wf", "tp_wf(self._handlers_task_pool)")],
          ensures=[("stopped", "self._stopped")],
